@@ -28,7 +28,14 @@ def run(chk):
              {"files": {"m": "LOOP a DO LOOP b DO LOOP c DO x := x + 1 END END END; LOOP a DO z := 1 END"}, "main": "m"},
              {"files": {"m": "x := RUN nope WITH 1 END"}, "main": "m"},
              {"files": {"m": "x := ; LOOP"}, "main": "m"},
-             {"files": {"m": 'include "gone"\nx := 1'}, "main": "m"}]
+             {"files": {"m": 'include "gone"\nx := 1'}, "main": "m"},
+             # rejected inputs that drive library calls into their error paths (strtol range errors, diagnostics tables)
+             {"files": {"m": "x := 99999999999999999999; y := x + 1"}, "main": "m"},
+             {"files": {"m": "DEFINE PRIO 99999999999999999999 nop AS x := 1 END DEFINE nop"}, "main": "m"},
+             {"files": {"m": "DEFINE inc <ID> AS $0 := $99999999999999999999 END DEFINE inc x"}, "main": "m"},
+             {"files": {"m": "DEFINE unclosed <ID> AS $0 := 1"}, "main": "m"},
+             {"files": {"m": "LOOP x DO y := 1"}, "main": "m"},
+             {"files": {"m": "x := 1; y := x + 2; z := y - 1"}, "main": "m"}]
     # 1. reference: CompileFn[input], each in a fresh single-threaded process
     ref = []
     for k, x in enumerate(pool):
